@@ -13,7 +13,7 @@ RULES = {
     'R2': 'the transport connect (only creator of rings/control file/channel sockets) needs accept == 0; refusal sends the error, drops the allocation reference (whose teardown removes the temp dir) and closes the socket; the request dispatcher is registered only inside the connect implementations',
     'R3': 'connection files are created with mode & 077 == 0 (0600 or mkstemp under umask 077); chmod(auth.mode) follows chown(auth.uid, auth.gid) of the same path; c->auth is written only by handle_new_connection (peer ids, 0600) and qb_ipcs_connection_auth_set',
 }
-FLOORS = {'R1': 7, 'R2': 7, 'R3': 9}
+FLOORS = {'R1': 7, 'R2': 7, 'R3': 13}
 
 
 def run(ctx):
@@ -175,6 +175,16 @@ def r3(ctx):
         cs = list(g.calls(call))
         paths = {last_field(ev.args[0])[1] if last_field(ev.args[0]) else None for ev in cs}
         ctx.check('R3', '%s:both-files' % nm, paths == {'data_path', 'hdr_path'}, g, '%s covers the data and the header file' % nm, '%s covers only %s' % (nm, sorted(p for p in paths if p)))
+        # success is reported only after both files were handled, with the caller's values
+        succ = [r for r in g.returns() if r.e is not None and cval(unwrap(r.e)) == 0]
+        if not succ:
+            raise AnalysisBroken('%s: no success return' % nm)
+        ok = len(cs) == 2 and all(g.ev_dominates(c, r) for c in cs for r in succ)
+        ctx.check('R3', '%s:success-needs-both-calls' % nm, ok, succ[0], '%s returns 0 only after %s of both files' % (nm, call),
+                  '%s can report success without having re-owned / re-moded both files (e.g. an early return for "our own uid" leaves the group unset)' % nm)
+        want = [p['n'] for p in g.params[1:]]
+        ok = all([estr(a) for a in c.args[1:]] == want for c in cs)
+        ctx.check('R3', '%s:passes-caller-values' % nm, ok, cs[0] if cs else g, '%s hands %s to %s unchanged' % (nm, want, call), '%s does not pass %s through to %s' % (nm, want, call))
     # writers of c->auth
     bad = []
     n = 0
